@@ -55,6 +55,9 @@ func C02(c Ctx) *report.Report {
 	o := clpOpts(c, 30, 1200)
 	o.Weights = map[int]int{1: 2, 2: 7, 3: 6, 4: 6, 5: 4, 6: 2, 7: 1, 8: 2, 9: 1}
 	hs := []History{ScriptF14(&next)} // corpus first
+	for i := 0; i < c.N(6, 100); i++ {
+		hs = append(hs, ScriptDust(rng, 8000+i, &next))
+	}
 	hs = append(hs, RunClpHistories(c, rep, rng, o, &next)...)
 	for _, h := range hs {
 		MonUnits(rep, h)
